@@ -409,7 +409,10 @@ def scenario_of(case):
             pos = off
         chunks.append([it.get("last_delay", 0), text[pos:]])
         items[tok] = {"chunks": chunks, "die": it.get("die")}
-    return {"items": items, "default": {"chunks": [], "die": None},
+    # a line that carries no known token (an input that should not have been sent) still gets a complete,
+    # empty answer: the session goes on and the oracle reports what was sent instead of timing out
+    unknown = answer_text(case, {"tok": "unknown", "nres": 0, "ex": {}})
+    return {"items": items, "default": {"chunks": [[0, unknown]], "die": None},
             "runnote": case.get("runnote", True), "exit_ok": case.get("exit_ok", 0)}
 
 
@@ -578,7 +581,7 @@ def ok_text(front, idx, rng):
 class C19(Check):
     pid = "C19"
     level = "proof"
-    quick_cases = 190
+    quick_cases = 215
     thorough_cases = 1700
     search_budget = {"quick": 150, "thorough": 2000}
     rule = ("distinct (front end, protocol, per-input behaviour/cut/exit policy) sessions with at least one "
@@ -1392,7 +1395,8 @@ def unicode_cases():
                 items.append(mk_item(2 * j, "parser", "skip", text=b))
                 items.append(mk_item(2 * j + 1, "parser", text=oks[(k + j) % len(oks)] % ("i%dx" % (2 * j + 1))))
             # a failure in between: the skipped inputs around it stay skipped
-            items[3] = dict(items[3], kind="die", die=die_spec(delay_exit=20), cut=0, sync=True)
+            if len(items) > 3:
+                items[3] = dict(items[3], kind="die", die=die_spec(delay_exit=20), cut=0, sync=True)
             cs.append(case("unicode-blank", "parser", tsdb, items))
         cs.append(case("unicode-blank", "parser", tsdb,
                        [mk_item(i, "parser", "skip", text=ch) for i, ch in enumerate(UNI_BLANK)]
